@@ -140,15 +140,12 @@ Definition und_top (md : mode) (sl sd sc : bool) (p : parser) (cfg : cv) : list 
 Definition undeclared (md : mode) (p : parser) (cfg : cv) : list (list seg) := und_top md false false false p cfg.
 
 (* 0 = inside the guard;
-   1 = an undeclared key whose value is a leafless mapping;
-   2 = an undeclared key in the section of a subcommand that is not in force;
-   3 = an undeclared key beside class_path in a class value without init_args *)
+   2 = an undeclared key in the section of a subcommand that is not in force (the parse discards that section).
+   The former classes 1 (an undeclared key holding a leafless mapping) and 3 (an undeclared key beside class_path without
+   init_args) are gone: both defects are repaired in the library (a58b0fc, 56814dd), the model follows the repaired code and
+   the theorem needs no guard for them (the flags sl / sc of und stay false). *)
 Definition guard_class (md : mode) (p : parser) (cfg : cv) : N :=
-  let n := length (und_top md false false false p cfg) in
-  if Nat.ltb (length (und_top md false false true p cfg)) n then 3%N
-  else if Nat.ltb (length (und_top md true false false p cfg)) n then 1%N
-  else if Nat.ltb (length (und_top md false true false p cfg)) n then 2%N
-  else if Nat.eqb (length (und_top md true true true p cfg)) n then 0%N else 4%N.
+  if Nat.ltb (length (und_top md false true false p cfg)) (length (und_top md false false false p cfg)) then 2%N else 0%N.
 
 (* ---- required keys ------------------------------------------------------------------------------------ *)
 Fixpoint req_d (key : list str) (d : decl) : list (list str) :=
